@@ -2,6 +2,16 @@
 """Regenerates MANIFEST.json from the table below (kept in one place so it stays valid)."""
 import json, subprocess
 CLAIMED = {
+ "C05": dict(cat="exploration", tech="deterministic simulation: online monitor over the Loader and Locker seam histories under seeded schedules, with tampered bytes in the cache and remote tiers, plus a record-then-verify history (second build with the lockfile the first wrote)",
+   text="Every loader request and every locker call of a build is checked against the monitor rules (checksum presented, retry discipline, rejected content never admitted, checksummed redirects rejected, new checksums recorded exactly once with the SHA-256 of the served bytes, lockfile entries never overwritten), then the unchanged world is built again with the lockfile just written. Sampled by seed over lockfile contents x tampering x load paths.",
+   note="The simulated loader is honest (verifies the presented checksum against the bytes it returns); vendored manifests (lockfileChecksum) are not verified, as in the CLI. The cached-version probe is exempt from the presentation rule.", ref="DESIGN.md §3 C05"),
+ "C06": dict(cat="exploration", tech="deterministic simulation: history monitor over Reporter::on_resolve events against a five-tier selection reference, registry states enumerated systematically through the simulated registry and the real builder",
+   text="A bounded family of registry states (63 version subsets x yanked patterns x dates x 8 requirements x cutoff x exclusion = 36,288 states; fully in thorough, strided in quick) plus seeded multi-requirement / lockfile-seeded / cached / stale-metadata worlds; every resolution event and the final package table, yanked set and not-found errors are compared with the reference.",
+   note="deno_semver's matching and ordering are trusted; the reference uses the metadata body delivered to the build before each event.", ref="DESIGN.md §3 C06"),
+ "C07": dict(cat="exploration", tech="deterministic simulation: generated registries served by the simulated loader under seeded schedules; registry model compared with redirects, package table, per-package dependency sets and URL<->nv conversion",
+   text="For generated registries (name-prefix collisions, pre-release versions, string and map exports, cross-package and https imports) every resolved jsr: specifier, unknown-export error, package_exports, packages_with_deps and URL attribution is compared with the registry model. Sampled by seed.",
+   note="Version selection itself is C06's subject; per-package dependencies are bounded below by loaded modules and above by all files of the package.", ref="DESIGN.md §3 C07"),
+
  "C17": dict(cat="exploration", tech="deterministic simulation: two-run relation prune_types(build All) vs build CodeOnly, each run under its own seeded schedule and hash seed",
    text="For generated worlds satisfying the statement's proviso, the pruned full graph and an independently scheduled code-only build are compared on entries, redirects, code edges and validation verdict, and the pruned graph must carry no type data. Sampled by seed.",
    note="Frozen cache and identity-keyed answers make the two runs see the same sources. Bounds: builds follow dynamic dependencies (prune_types cannot know skip_dynamic_deps), redirect limit kept away from generated chain lengths, no lockfile, structural comparison skipped when configured (type) imports exist. Two context-dependence deviations are listed as known findings.", ref="DESIGN.md §3 C17"),
